@@ -327,7 +327,8 @@ fn emb_put(kind: PayloadKind, len: usize, seed: u64, ts: i64, dim: usize, eseed:
     p
 }
 
-/// fixed cases that run first; the first two are the witnesses of the defect repaired by fixes/C40.diff
+/// fixed cases that run first; the first two are the witnesses of the defect repaired by fixes/C40.diff (7cd4b84),
+/// `witness-sketch-order-…` the one repaired by fixes/C40b.diff
 fn corpus() -> Vec<(String, Case)> {
     let plain = |kind, len, seed, ts| PutSpec::simple(PayloadSpec::new(kind, len, seed), ts);
     let base = Case { prefix: vec![], docs: vec![], dis: true, skip_sync: true, level: 3, presize: 0, skip_in_batch: false };
@@ -354,6 +355,12 @@ fn corpus() -> Vec<(String, Case)> {
                 put: if i % 3 == 0 { emb_put(PayloadKind::Rand, 4000, 40 + i, 300 + i as i64, 2, 60 + i) } else { plain(PayloadKind::Rand, 4000, 40 + i, 300 + i as i64) },
                 cut: i % 5 == 4 }).collect(),
             dis: false, skip_sync: true, level: 3, presize: 0, skip_in_batch: false, prefix: vec![] }),
+        // found by the generator (seed 7920): without a batch the 87 KB put of the second group grows the WAL and
+        // checkpoints by itself (a FULL commit inside the skip path), so frames 1..13 are sketched before
+        // finalize_indexes sketches frame 0; the persisted track stores no frame ids, so unless the track is kept
+        // in frame-id order (fixes/C40b.diff) every sketch is attached to the wrong frame after a reopen
+        ("witness-sketch-order-after-interleaved-full-commit".into(),
+            serde_json::from_str(r#"{"dis":true,"docs":[{"cut":true,"put":{"auto_tag":false,"chunk_embs":null,"emb":null,"enable_embedding":false,"extract_dates":false,"extract_triplets":false,"instant_index":false,"kind":null,"labels":[],"payload":{"kind":"Utf8","len":254,"seed":2296911577701294223},"role":0,"tags":[],"track":"wiki","ts":1678387991,"uri":"mv2://alpha/log-6.txt"}},{"cut":false,"put":{"auto_tag":false,"chunk_embs":null,"emb":null,"enable_embedding":false,"extract_dates":false,"extract_triplets":false,"instant_index":false,"kind":null,"labels":["note"],"payload":{"kind":"Table","len":4861,"seed":10215474513998253626},"role":0,"tags":[],"track":"doc","ts":1678388067,"uri":null}},{"cut":false,"put":{"auto_tag":false,"chunk_embs":null,"emb":{"dim":7,"seed":6702228096582250742},"enable_embedding":false,"extract_dates":false,"extract_triplets":false,"instant_index":false,"kind":null,"labels":[],"payload":{"kind":"Ascii","len":433,"seed":512859987766093692},"role":0,"tags":["news"],"track":"log","ts":1678387926,"uri":"mv2://mail/beta-9.txt"}},{"cut":false,"put":{"auto_tag":false,"chunk_embs":null,"emb":null,"enable_embedding":false,"extract_dates":false,"extract_triplets":false,"instant_index":false,"kind":null,"labels":["note"],"payload":{"kind":"Rand","len":87488,"seed":14829412634278599891},"role":0,"tags":["alpha"],"track":null,"ts":1678388021,"uri":"mv2://doc/doc-10.txt"}}],"level":3,"prefix":[],"presize":0,"skip_in_batch":false,"skip_sync":false}"#).expect("corpus case")),
         ("empty-and-tiny".into(), Case {
             docs: vec![Doc { put: plain(PayloadKind::Empty, 0, 1, 5), cut: true }, Doc { put: plain(PayloadKind::Bin, 1, 2, 5), cut: false }, Doc { put: emb_put(PayloadKind::Zero, 100, 3, 4, 1, 5), cut: false }],
             level: 9, presize: 1, ..base.clone() }),
